@@ -700,6 +700,7 @@ func (n *BitcoinNode) completeBlock(ctx context.Context, blockHash *bitcoin.Hash
 		n.requestTime = nil
 		n.blockRequest = nil
 		n.blockReader = nil
+		n.blockHandlerCalled = false
 		delete(n.handlers, wire.CmdBlock)
 		n.blockHandler = nil
 		n.blockOnStop = nil
@@ -786,6 +787,17 @@ func (n *BitcoinNode) handleBlock(ctx context.Context, header *wire.MessageHeade
 			return err
 		})
 	blockHandlerThread.SetWait(&wait)
+
+	n.Lock()
+	if n.blockReader == nil {
+		// Cancelled while the transaction count was read. The canceller was told that the handler
+		// had not been called, so it must not be called now.
+		n.Unlock()
+		logger.Verbose(ctx, "Aborting block download (cancelled before handler)")
+		return nil
+	}
+	n.blockHandlerCalled = true
+	n.Unlock()
 
 	blockHandlerThread.Start(ctx)
 
